@@ -73,7 +73,56 @@ func collisionFamily(r *rand.Rand, n int) [][]byte {
 
 // genKeys returns a small key alphabet: empty, one byte, long, binary, common prefix, and
 // optionally a family of colliding keys. groups[i] >= 0 marks collision families.
+// shortKeyFamily: short binary keys that a hand-rolled "fast path for small keys" could confuse with each
+// other: a base of 0-7 bytes, its zero-extensions up to 9 bytes, and 8-byte keys made of the base, zero
+// padding and a last byte that looks like a length, sign or tag byte.
+func shortKeyFamily(r *rand.Rand) [][]byte {
+	l := r.IntN(8)
+	base := make([]byte, l)
+
+	for i := range base {
+		base[i] = pick(r, byte(0), 1, 'a', 0x7f, 0x80, 0xff, byte(r.IntN(256)))
+	}
+
+	var rest [][]byte
+
+	for n := l + 1; n <= 9; n++ {
+		rest = append(rest, append(append([]byte(nil), base...), make([]byte, n-l)...))
+	}
+
+	for _, last := range []byte{1, byte(l), 8, 0x7f, 0x80, byte(0xf8 + l), 0xff} {
+		k := make([]byte, 8)
+		copy(k, base)
+		k[7] = last
+		rest = append(rest, k)
+	}
+
+	r.Shuffle(len(rest), func(i, j int) { rest[i], rest[j] = rest[j], rest[i] })
+
+	fam := [][]byte{base}
+	seen := map[string]bool{string(base): true}
+
+	for _, k := range rest {
+		if len(fam) < 6 && !seen[string(k)] {
+			seen[string(k)] = true
+
+			fam = append(fam, k)
+		}
+	}
+
+	return fam
+}
+
 func genKeys(r *rand.Rand, max int, collisions int) (keys [][]byte, groups []int) {
+	if collisions <= 1 && chance(r, 0.1) {
+		for _, k := range shortKeyFamily(r) {
+			keys = append(keys, k)
+			groups = append(groups, -1)
+		}
+
+		return keys, groups
+	}
+
 	pool := [][]byte{
 		[]byte(""), []byte("a"), []byte(strings.Repeat("L", 300)), {0, 1, 0, 255, 0}, []byte("pre"), []byte("prefix"), []byte("k1"), []byte("k2"),
 	}
